@@ -1,7 +1,9 @@
 from __future__ import annotations
 
+import ast
 import hashlib
 import logging
+import operator
 import os
 import re
 import sys
@@ -2023,6 +2025,77 @@ class FortranFile:
         return None
 
 
+_PP_BIN_OPS = {
+    ast.Add: operator.add,
+    ast.Sub: operator.sub,
+    ast.Mult: operator.mul,
+    ast.Div: operator.truediv,
+    ast.FloorDiv: operator.floordiv,
+    ast.Mod: operator.mod,
+    ast.BitOr: operator.or_,
+    ast.BitAnd: operator.and_,
+    ast.BitXor: operator.xor,
+}
+_PP_CMP_OPS = {
+    ast.Eq: operator.eq,
+    ast.NotEq: operator.ne,
+    ast.Lt: operator.lt,
+    ast.LtE: operator.le,
+    ast.Gt: operator.gt,
+    ast.GtE: operator.ge,
+}
+
+
+def eval_pp_expr(expr: str):
+    """Evaluate a preprocessor condition, already rewritten with Python operators.
+
+    Only literals, boolean/arithmetic/comparison operators and parentheses are
+    accepted; anything else (names, calls, attribute access, ...) raises
+    ``ValueError`` so that text from source files is never executed.
+    """
+
+    def ev(node):
+        if isinstance(node, ast.Expression):
+            return ev(node.body)
+        if isinstance(node, ast.Constant) and isinstance(
+            node.value, (bool, int, float, str)
+        ):
+            return node.value
+        if isinstance(node, ast.BoolOp):
+            res = ev(node.values[0])
+            for value in node.values[1:]:
+                if isinstance(node.op, ast.And):
+                    if not res:
+                        return res
+                elif res:
+                    return res
+                res = ev(value)
+            return res
+        if isinstance(node, ast.UnaryOp):
+            val = ev(node.operand)
+            if isinstance(node.op, ast.Not):
+                return not val
+            if isinstance(node.op, ast.USub):
+                return -val
+            if isinstance(node.op, ast.UAdd):
+                return +val
+        if isinstance(node, ast.BinOp) and type(node.op) in _PP_BIN_OPS:
+            return _PP_BIN_OPS[type(node.op)](ev(node.left), ev(node.right))
+        if isinstance(node, ast.Compare) and all(
+            type(op) in _PP_CMP_OPS for op in node.ops
+        ):
+            left = ev(node.left)
+            for op, comp in zip(node.ops, node.comparators):
+                right = ev(comp)
+                if not _PP_CMP_OPS[type(op)](left, right):
+                    return False
+                left = right
+            return True
+        raise ValueError("unsupported preprocessor expression")
+
+    return ev(ast.parse(expr.strip(), mode="eval"))
+
+
 def preprocess_file(
     contents_split: list,
     file_path: str = None,
@@ -2076,7 +2149,7 @@ def preprocess_file(
         out_line = replace_defined(text)
         out_line = replace_vars(out_line)
         try:
-            line_res = eval(replace_ops(out_line))
+            line_res = eval_pp_expr(replace_ops(out_line))
         except:
             return False
         else:
